@@ -1648,6 +1648,8 @@ def spend_cases(rng, tier):
     i = 0
     for c in program_shape_cases(rng, tier):
         yield c
+    for c in witness_depth_cases(rng, tier):
+        yield c
     # systematic: every kind x every strict signature variant, untweaked, under a spread of flag sets
     for kind in SPEND_KINDS:
         for var in ["valid", "high_s", "wrong_key", "wrong_msg", "empty", "undefined_hashtype", "s_ge_n", "r_ge_n", "zero_s"]:
@@ -1759,6 +1761,27 @@ def encoding_sweeps(rng, tier):
         for fl in (FL["DERSIG"], FL["STRICTENC"] | FL["NULLDUMMY"], FL["NULLFAIL"] | FL["DERSIG"]):
             yield EvalCase(fl, "B", b"\xae", [b"", m_, b"\x01", key, b"\x01"], tx, 0, 9, "dermut_cms")
             yield EvalCase(fl, "B", b"\xae", [b"", m_, b"\x01", key, b"\x05" + xb, b"\x02"], tx, 0, 9, "dermut_cms2")
+
+
+def witness_depth_cases(rng, tier):
+    """P2WSH witness stacks around the 1000-item limit (the limit is checked after each executed opcode, not on the
+    initial stack) and around the largest stack that can still end clean within 201 opcodes (403 items)"""
+    shapes = [(1001, b"\x75"), (1002, b"\x6d"), (1000, b"\x61"), (1001, b"\x61"), (1001, b"\x51"), (1000, b"\x51"), (999, b"\x51"),
+              (1001, b""), (1003, b"\x6d"), (1001, b"\x00\x63\x68"), (1001, b"\x75" + b"\x6d" * 200),
+              (403, b"\x6d" * 201), (404, b"\x6d" * 201), (402, b"\x75" + b"\x6d" * 200), (403, b"\x6d" * 202),
+              (1001, b"\x75\x6b"), (1000, b"\x6b\x51"), (1001, b"\x6b")]
+    for n, script in shapes:
+        for fl in (close_flags(FL["WITNESS"]), close_flags(FL["WITNESS"] | FL["CLEANSTACK"] | FL["MINIMALIF"])):
+            for behind_p2sh in (False, True):
+                tx = SynTx(2, [[b"\x44" * 32, 3, b"", 0xFFFFFFFD, []]], [[7, b"\x51"]], 0)
+                prog = b"\x00\x20" + sha256(script)
+                tx.vin[0][4] = [b"\x01"] * n + [script]
+                if behind_p2sh:
+                    tx.vin[0][2] = push_raw(prog)
+                    spk = b"\xa9\x14" + hash160(prog) + b"\x87"
+                else:
+                    spk = prog
+                yield SpendCase(fl, tx, 0, spk, 7, "witdepth/%d/%s%s" % (n, script.hex()[:8], "/p2sh" if behind_p2sh else ""))
 
 
 def derived_eval_cases(sp: SpendCase):
@@ -1953,78 +1976,13 @@ def replay_input(check, inp):
     return {"kind": "unknown-check"}
 
 
-# ---- known findings: executable predicates over (input, failure) ---------------------------------
-# A difference belongs to a listed finding exactly when it disappears once the ONE deviation the finding names is
-# neutralised in the running implementation (handlers wrapped in memory for the duration of one re-run; /repo is
-# not touched) — and the cheap static precondition of the finding holds.  Everything else the wrapped code does
-# still runs, so a second defect in the same handler is not hidden.
-class _Neutralise:
-    def __init__(self, lows=False):
-        self.lows = lows
-        self.saved = []
-
-    def __enter__(self):
-        from pycoin.satoshi import checksigops
-        if self.lows:
-            orig = checksigops.check_low_der_signature
-
-            def low(sig_pair, generator, orig=orig):
-                r, s_ = sig_pair
-                if r >= generator.order() or s_ >= generator.order():
-                    return                           # reference: an overflowed signature is the zero one, not "high"
-                return orig(sig_pair, generator)
-            self.saved.append((checksigops, "check_low_der_signature", orig))
-            checksigops.check_low_der_signature = low
-        return self
-
-    def __exit__(self, *a):
-        for obj, key, orig in reversed(self.saved):
-            if isinstance(obj, list):
-                obj[key] = orig
-            else:
-                setattr(obj, key, orig)
-        return False
-
-
-def _agrees_when(case, lows) -> bool:
-    ev = isinstance(case, EvalCase)
-    spec = (spec_eval if ev else spec_verify)([case])[0]
-    with _Neutralise(lows):
-        impl = impl_eval(case) if ev else impl_verify(case)
-    return _agree(spec, impl)
-
-
+# ---- known findings ------------------------------------------------------------------------------
+# The only listed finding is the lax-DER region (informational stream, never yields a failure), so no failure of
+# the eval / spend checks is attributable to a known finding: every difference is a VIOLATION.
+# (cltv-csv-reencodes-operand, initial-stack-over-1000 and low-s-overflowed-scalar were fixed in /repo by
+# 10542fa, b1c8714 and 5ddfba8; their predicates were removed so that a regression is reported.)
 def classify(pc, r):
-    if not isinstance(r, dict) or pc.name not in ("eval", "spend") or r.get("kind") not in ("stack", "verdict"):
-        return None
-    inp = pc.inp
-    flags = inp["flags"]
-    if pc.name == "eval":
-        n_stack = sum(n for _h, n in inp["stack"]) if inp.get("compact") else len(inp["stack"])
-        if n_stack > 1000 and r.get("impl", {}).get("detail") == "STACK_SIZE" and r.get("spec", {}).get("result") == "ok":
-            return "initial-stack-over-1000"
-        case = _eval_from_json(inp)
-    else:
-        case = SpendCase.from_json(inp)
-    # static preconditions
-    can_lows = bool(flags & FL["LOW_S"]) and r.get("impl", {}).get("detail") == "SIG_HIGH_S"
-    try:
-        if can_lows and _agrees_when(case, True):
-            return "low-s-overflowed-scalar"
-    except Exception:
-        return None
     return None
-
-
-def _replay_initial_stack():
-    return chk_eval(EvalCase(0, "B", b"\x75", [b"\x01"] * 1001))
-
-
-def _replay_low_s():
-    rng = rng_for(0, "C03", "replay-low-s")
-    c = build_spend(rng, "p2pk_not", ["s_ge_n"], FL["LOW_S"], "none")
-    c.tx.vin[c.nin][2] = c.tx.vin[c.nin][2]
-    return chk_spend(c)
 
 
 def _replay_lax():
@@ -2039,8 +1997,6 @@ def _replay_lax():
 
 
 KNOWN_REPLAYS = {
-    "initial-stack-over-1000": _replay_initial_stack,
-    "low-s-overflowed-scalar": _replay_low_s,
     "lax-der-parser": _replay_lax,
 }
 
